@@ -156,6 +156,60 @@ theorem C20_kmeansInit_congr (s₁ s₂ k₁ k₂ : Nat) (p₁ p₂ : List (Nat 
     (hs : s₁ = s₂) (hk : k₁ = k₂) (hp : p₁ = p₂) : kmeansInit s₁ k₁ p₁ = kmeansInit s₂ k₂ p₂ := by
   subst hs hk hp; rfl
 
+/-- the widening-multiply step of `gen_range`: for any 64-bit draw `v` the candidate `⌊v·n / 2^64⌋`
+    is a valid index below `n` (so whichever draw is accepted, the chance branch index is in range) -/
+theorem genRangeIdx_lt (n zone : Nat) (hn : 0 < n) : ∀ (fuel : Nat) (x : Xo),
+    genRangeIdx n zone x fuel < n := by
+  intro fuel
+  induction fuel with
+  | zero => intro x; simpa [genRangeIdx] using hn
+  | succ f ih =>
+    intro x
+    simp only [genRangeIdx]
+    split
+    · have hv : (xoNext x).1.toNat < 2 ^ 64 := (xoNext x).1.toNat_lt
+      apply Nat.div_lt_of_lt_mul
+      exact Nat.mul_lt_mul_of_pos_right hv hn
+    · exact ih _
+
+/-- `genRangeIdx` is the first component of the pair-returning loop used when the generator state
+    is threaded on -/
+theorem genRangeIdx_eq (n zone : Nat) : ∀ (fuel : Nat) (x : Xo),
+    genRangeIdx n zone x fuel = (genRangeGo n zone x fuel).1 := by
+  intro fuel
+  induction fuel with
+  | zero => intro x; rfl
+  | succ f ih =>
+    intro x
+    simp only [genRangeIdx, genRangeGo]
+    split
+    · rfl
+    · exact ih _
+
+/-- **`explore_any` always picks an existing chance branch**, for every epoch, bucket and `n > 0`. -/
+theorem C20_exploreAny_lt (e p d a f n : Nat) (hn : 0 < n) : exploreAny e p d a f n < n :=
+  genRangeIdx_lt n _ hn _ _
+
+/-- **`explore_one` always picks an existing opponent branch** whenever it does not panic. -/
+theorem C20_exploreOne_lt (e p d a f : Nat) (ws : List Float32) (i : Nat)
+    (h : exploreOne e p d a f ws = some i) : i < ws.length := by
+  unfold exploreOne weightedIndex at h
+  cases ws with
+  | nil => simp at h
+  | cons w ws =>
+    simp only [List.isEmpty_cons, Bool.false_eq_true, if_false, prefixSums] at h
+    by_cases c0 : ((w :: ws).any fun w => !decide (w ≥ 0.0)) = true
+    · simp [c0] at h
+    · by_cases c1 : (List.foldl (fun x1 x2 => x1 + x2) w ws == 0.0) = true
+      · simp [c0, c1] at h
+      · by_cases c2 : (!decide (0.0 < List.foldl (fun x1 x2 => x1 + x2) w ws)) = true
+        · simp [c0, c1, c2] at h
+          simp only [Bool.not_eq_true', decide_eq_false_iff_not] at c2
+          exact absurd (of_decide_eq_true h.1) c2
+        · simp [c0, c1, c2] at h
+          rw [← h.2]
+          exact C20_partitionPoint_f32_lt w ws _
+
 -- non-vacuity: weights 1/2, 1/4, 1/4; x = 0.6 falls in the second interval [1/2, 3/4)
 example : pick [1/2, 1/4, 1/4] (3/5) = 1 := by
   have hnn : ∀ w ∈ ([1/2, 1/4, 1/4] : List ℚ), 0 ≤ w := by
